@@ -30,6 +30,11 @@ type countingCtx struct {
 	k      int
 	closed chan struct{}
 	open   chan struct{}
+	// node counter of the search at the previous poll, and the largest number of nodes entered between two
+	// consecutive polls: a stop arriving between them would go unnoticed for that many nodes
+	nodes  func() uint64
+	last   uint64
+	maxGap uint64
 }
 
 func newCountingCtx(k int) *countingCtx {
@@ -41,6 +46,13 @@ func (c *countingCtx) Deadline() (time.Time, bool) { return time.Time{}, false }
 func (c *countingCtx) Done() <-chan struct{} {
 	n := c.calls
 	c.calls++
+	if c.nodes != nil {
+		cur := c.nodes()
+		if n > 0 && cur-c.last > c.maxGap {
+			c.maxGap = cur - c.last
+		}
+		c.last = cur
+	}
 	if c.k >= 0 && n >= c.k {
 		return c.closed
 	}
@@ -142,12 +154,13 @@ var reInfo = regexp.MustCompile(`^info depth (\d+) score cp (-?\d+) time \d+ nod
 var reWin = regexp.MustCompile(`^info string windows \[(-?\d+),(-?\d+)\] too small for value (-?\d+)\. Re-run search\.$`)
 
 type searchOutcome struct {
-	line  string
-	best  move.Move
-	pvs   [][]string
-	hang  bool
-	nodes uint64
-	polls int
+	line   string
+	best   move.Move
+	pvs    [][]string
+	hang   bool
+	nodes  uint64
+	polls  int
+	maxGap uint64
 }
 
 func runOneSearch(specLine string, tmp string) (out searchOutcome, root *position.Position, ok bool) {
@@ -171,6 +184,7 @@ func runOneSearch(specLine string, tmp string) (out searchOutcome, root *positio
 	depth, _ := strconv.Atoi(f[2])
 	cancel, _ := strconv.Atoi(f[3])
 	ctx := newCountingCtx(cancel)
+	ctx.nodes = func() uint64 { return s.VerifNodes() }
 	file, _ := os.Create(tmp)
 	saved := os.Stdout
 	os.Stdout = file
@@ -199,7 +213,7 @@ func runOneSearch(specLine string, tmp string) (out searchOutcome, root *positio
 	}
 	raw, _ := os.ReadFile(tmp)
 	var evs []string
-	o := searchOutcome{best: best, nodes: s.VerifNodes(), polls: ctx.calls}
+	o := searchOutcome{best: best, nodes: s.VerifNodes(), polls: ctx.calls, maxGap: ctx.maxGap}
 	for _, l := range strings.Split(strings.TrimSpace(string(raw)), "\n") {
 		if m := reInfo.FindStringSubmatch(l); m != nil {
 			evs = append(evs, strings.TrimSpace(fmt.Sprintf("I %s %s %s %s %s", m[1], m[2], m[3], m[4], m[5])))
@@ -289,6 +303,10 @@ func searchRun(cases []string, obs, oracle *common.Out) {
 			}
 			if len(o.pvs) > 0 && len(o.pvs[len(o.pvs)-1]) > 0 && o.best != move.NullMove && o.pvs[len(o.pvs)-1][0] != o.best.String() {
 				fail("C04", "search %d: answer %s is not the first move of the last PV %v", si, o.best.String(), o.pvs[len(o.pvs)-1])
+			}
+			// C05: a stop is noticed at the very next node wherever it lands: no two nodes are entered without a poll between them
+			if o.maxGap > 1 {
+				fail("C05", "search %d (%s): %d nodes were entered between two consecutive polls of the stop/deadline: a stop arriving there is not noticed at the next node", si, sp, o.maxGap)
 			}
 			// C05: depth never exceeded
 			for _, e := range strings.Split(strings.SplitN(o.line, "ev: ", 2)[1], " / ") {
